@@ -7,6 +7,7 @@ import (
 	"math/big"
 	"os"
 	"os/exec"
+	"runtime"
 	"strings"
 	"time"
 )
@@ -178,81 +179,46 @@ type Solver struct {
 	Stats     Stats
 	Log       io.Writer // optional transcript
 
-	proc     *exec.Cmd
-	in       io.WriteCloser
-	out      *bufio.Reader
-	em       *emitter
+	z3       *sproc // incremental z3 (bit-blasting): byte shuffling, equalities, UF
+	cv       *sproc // incremental cvc5 --solve-bv-as-int=sum: mul/div/rem kernels
+	last     *sproc // process that produced the last Sat answer
 	stack    [][]*Term // assertion frames
-	sent     int       // commands since (re)start
 	fbModel  map[string]*big.Int
 	hardMemo map[int]bool
-	Errors   []string
+	Errors   []string // problems that left a query undecided
+	Warnings []string // solver hiccups that were recovered from (process restarted, query re-decided)
+	NoCvInt  bool
+	cvFails  int
 }
 
-func NewSolver(c *Ctx, timeoutMs int) *Solver {
-	s := &Solver{C: c, TimeoutMs: timeoutMs, FbTimeout: 60}
-	s.Stats.ByBackend = map[string]int{}
-	s.stack = [][]*Term{nil}
-	return s
+// sproc is one live solver process mirroring the assertion stack.
+type sproc struct {
+	name string
+	cmd  *exec.Cmd
+	in   io.WriteCloser
+	out  *bufio.Reader
+	em   *emitter
+	sent int
+	log  io.Writer
 }
 
-func (s *Solver) start() {
-	cmd := exec.Command("z3", "-in", fmt.Sprintf("-t:%d", s.TimeoutMs))
-	in, _ := cmd.StdinPipe()
-	out, _ := cmd.StdoutPipe()
-	cmd.Stderr = os.Stderr
-	if err := cmd.Start(); err != nil {
-		panic("cannot start z3: " + err.Error())
+func (p *sproc) send(line string) {
+	if p.log != nil {
+		fmt.Fprintln(p.log, line)
 	}
-	s.proc, s.in, s.out = cmd, in, bufio.NewReaderSize(out, 1<<20)
-	s.em = newEmitter(s.send)
-	s.sent = 0
-	s.send("(set-option :global-declarations true)")
-	s.send("(set-option :produce-models true)")
-	// replay the assertion stack
-	for i, fr := range s.stack {
-		if i > 0 {
-			s.send("(push)")
-		}
-		for _, t := range fr {
-			s.em.define(s.C, t)
-			s.send("(assert " + ref(t) + ")")
-		}
-	}
+	io.WriteString(p.in, line)
+	io.WriteString(p.in, "\n")
+	p.sent++
 }
 
-func (s *Solver) Close() {
-	if s.proc != nil {
-		s.in.Close()
-		s.proc.Process.Kill()
-		s.proc.Wait()
-		s.proc = nil
-	}
+func (p *sproc) kill() {
+	p.in.Close()
+	p.cmd.Process.Kill()
+	p.cmd.Wait()
 }
 
-func (s *Solver) restart() {
-	s.Close()
-	s.Stats.Restarts++
-	s.start()
-}
-
-func (s *Solver) send(line string) {
-	if s.Log != nil {
-		fmt.Fprintln(s.Log, line)
-	}
-	io.WriteString(s.in, line)
-	io.WriteString(s.in, "\n")
-	s.sent++
-}
-
-func (s *Solver) ensure() {
-	if s.proc == nil {
-		s.start()
-	}
-}
-
-func (s *Solver) readLine() string {
-	line, err := s.out.ReadString('\n')
+func (p *sproc) readLine() string {
+	line, err := p.out.ReadString('\n')
 	if err != nil {
 		return "(error \"solver died: " + err.Error() + "\")"
 	}
@@ -260,13 +226,13 @@ func (s *Solver) readLine() string {
 }
 
 // readSexp reads one balanced s-expression (possibly spanning lines).
-func (s *Solver) readSexp() string {
+func (p *sproc) readSexp() string {
 	var sb strings.Builder
 	depth := 0
 	started := false
 	inBar := false
 	for {
-		line, err := s.out.ReadString('\n')
+		line, err := p.out.ReadString('\n')
 		if err != nil {
 			return sb.String()
 		}
@@ -292,16 +258,93 @@ func (s *Solver) readSexp() string {
 	}
 }
 
+func (s *Solver) spawn(name string) *sproc {
+	var cmd *exec.Cmd
+	switch name {
+	case "z3":
+		cmd = exec.Command("z3", "-in", fmt.Sprintf("-t:%d", s.TimeoutMs))
+	case "cvc5-int":
+		// incremental mode weakens cvc5's non-linear preprocessing: queries it
+		// does not decide quickly go to the one-shot portfolio instead
+		to := 1200
+		cmd = exec.Command("cvc5", "--incremental", "--solve-bv-as-int=sum", "--produce-models", fmt.Sprintf("--tlimit-per=%d", to))
+	}
+	in, _ := cmd.StdinPipe()
+	out, _ := cmd.StdoutPipe()
+	cmd.Stderr = os.Stderr
+	if err := cmd.Start(); err != nil {
+		panic("cannot start " + name + ": " + err.Error())
+	}
+	p := &sproc{name: name, cmd: cmd, in: in, out: bufio.NewReaderSize(out, 1<<20), log: s.Log}
+	p.em = newEmitter(p.send)
+	p.send("(set-option :global-declarations true)")
+	p.send("(set-option :produce-models true)")
+	if name != "z3" {
+		p.send("(set-logic ALL)")
+	}
+	// replay the assertion stack
+	for i, fr := range s.stack {
+		if i > 0 {
+			p.send("(push 1)")
+		}
+		for _, t := range fr {
+			p.em.define(s.C, t)
+			p.send("(assert " + ref(t) + ")")
+		}
+	}
+	return p
+}
+
+func (s *Solver) procs() []*sproc {
+	var ps []*sproc
+	if s.z3 != nil {
+		ps = append(ps, s.z3)
+	}
+	if s.cv != nil {
+		ps = append(ps, s.cv)
+	}
+	return ps
+}
+
+func NewSolver(c *Ctx, timeoutMs int) *Solver {
+	s := &Solver{C: c, TimeoutMs: timeoutMs, FbTimeout: 60}
+	s.Stats.ByBackend = map[string]int{}
+	s.stack = [][]*Term{nil}
+	return s
+}
+
+func (s *Solver) Close() {
+	for _, p := range s.procs() {
+		p.kill()
+	}
+	s.z3, s.cv, s.last = nil, nil, nil
+}
+
+func (s *Solver) restart(p *sproc) {
+	s.Stats.Restarts++
+	p.kill()
+	if s.last == p {
+		s.last = nil
+	}
+	if p == s.z3 {
+		s.z3 = s.spawn("z3")
+	} else if p == s.cv {
+		s.cv = s.spawn("cvc5-int")
+	}
+}
+
 func (s *Solver) Push() {
-	s.ensure()
 	s.stack = append(s.stack, nil)
-	s.send("(push)")
+	for _, p := range s.procs() {
+		p.send("(push 1)")
+	}
 }
 
 func (s *Solver) Pop() {
-	s.ensure()
 	s.stack = s.stack[:len(s.stack)-1]
-	s.send("(pop)")
+	for _, p := range s.procs() {
+		p.send("(pop 1)")
+	}
 }
 
 func (s *Solver) Depth() int { return len(s.stack) - 1 }
@@ -312,8 +355,10 @@ func (s *Solver) PopTo(d int) {
 	for s.Depth() > d {
 		s.Pop()
 	}
-	if s.proc != nil && s.sent > 400000 {
-		s.restart()
+	for _, p := range s.procs() {
+		if p.sent > 400000 {
+			s.restart(p)
+		}
 	}
 }
 
@@ -321,11 +366,12 @@ func (s *Solver) Assert(t *Term) {
 	if t.IsTrue() {
 		return
 	}
-	s.ensure()
 	top := len(s.stack) - 1
 	s.stack[top] = append(s.stack[top], t)
-	s.em.define(s.C, t)
-	s.send("(assert " + ref(t) + ")")
+	for _, p := range s.procs() {
+		p.em.define(s.C, t)
+		p.send("(assert " + ref(t) + ")")
+	}
 }
 
 func (s *Solver) allAsserts(extra ...*Term) []*Term {
@@ -338,54 +384,78 @@ func (s *Solver) allAsserts(extra ...*Term) []*Term {
 
 // Check decides satisfiability of the current stack.
 func (s *Solver) Check() Result {
-	s.ensure()
 	s.fbModel = nil
-	if s.stackHard() {
-		// non-linear 64-bit arithmetic: bit-blasting stalls, the integer
-		// translation decides these in milliseconds. Try it first.
-		s.Stats.Queries++
+	s.last = nil
+	s.Stats.Queries++
+	hard := s.stackHard()
+	var p *sproc
+	if hard && (s.NoCvInt || s.cvFails >= 3) {
+		// the incremental integer solver keeps timing out on this worker's
+		// queries: go straight to the one-shot portfolio
 		r, _ := s.fallback(s.allAsserts(), nil)
 		switch r {
 		case Sat:
 			s.Stats.Sat++
-			return r
 		case Unsat:
 			s.Stats.Unsat++
-			return r
+		default:
+			s.Stats.Unknown++
 		}
+		return r
+	}
+	if hard {
+		// non-linear 64-bit arithmetic: bit-blasting stalls, the integer
+		// translation decides these in milliseconds.
+		if s.cv == nil {
+			s.cv = s.spawn("cvc5-int")
+		}
+		p = s.cv
+	} else {
+		if s.z3 == nil {
+			s.z3 = s.spawn("z3")
+		}
+		p = s.z3
 	}
 	t0 := time.Now()
-	s.send("(check-sat)")
-	line := s.readLine()
+	p.send("(check-sat)")
+	line := p.readLine()
+	bad := false
 	for strings.HasPrefix(line, "(error") && !strings.Contains(line, "solver died") {
-		s.Errors = append(s.Errors, line)
-		nl := s.readLine()
-		if nl == "sat" || nl == "unsat" || nl == "unknown" || nl == "timeout" {
-			line = "unknown" // an error line makes the query inconclusive
-			break
-		}
-		line = nl
+		s.Warnings = append(s.Warnings, p.name+": "+line)
+		bad = true
+		line = p.readLine()
 	}
-	s.Stats.Queries++
 	s.Stats.Time += time.Since(t0)
-	s.trace("check", "z3", line, time.Since(t0))
+	s.trace("check", p.name, line, time.Since(t0))
+	if bad {
+		line = "unknown" // an error line makes the query inconclusive
+	}
 	switch line {
 	case "sat":
+		if p == s.cv && !s.cvModelOK() {
+			break
+		}
 		s.Stats.Sat++
-		s.Stats.ByBackend["z3"]++
+		s.Stats.ByBackend[p.name]++
+		s.last = p
 		return Sat
 	case "unsat":
 		s.Stats.Unsat++
-		s.Stats.ByBackend["z3"]++
-		return Unsat
-	case "unknown", "timeout":
-	default:
-		s.Errors = append(s.Errors, line)
-		if strings.Contains(line, "solver died") {
-			s.proc = nil
-			s.start()
+		s.Stats.ByBackend[p.name]++
+		if p == s.cv && s.cvFails > 0 {
+			s.cvFails--
 		}
+		return Unsat
 	}
+	if line != "unknown" && line != "timeout" && line != "sat" {
+		s.Warnings = append(s.Warnings, p.name+": "+line)
+	}
+	if p == s.cv {
+		s.cvFails++
+	}
+	// a timed-out or failed incremental solver is not trusted any further:
+	// restart it (the assertion stack is replayed)
+	s.restart(p)
 	// fallback portfolio on the whole stack
 	r, _ := s.fallback(s.allAsserts(), nil)
 	switch r {
@@ -397,6 +467,64 @@ func (s *Solver) Check() Result {
 		s.Stats.Unknown++
 	}
 	return r
+}
+
+// cvModelOK fetches the model of a Sat answer from the bv-as-int solver and,
+// when the query is free of uninterpreted functions, checks it against the
+// original bit-vector assertions.
+func (s *Solver) cvModelOK() bool {
+	asserts := s.allAsserts()
+	seen := map[int]bool{}
+	var vars []*Term
+	hasUF := false
+	var walk func(t *Term)
+	walk = func(t *Term) {
+		if seen[t.ID] {
+			return
+		}
+		seen[t.ID] = true
+		switch t.K {
+		case KVar:
+			vars = append(vars, t)
+		case KApp:
+			hasUF = true
+		}
+		for _, a := range t.Args {
+			walk(a)
+		}
+	}
+	for _, t := range asserts {
+		walk(t)
+	}
+	if hasUF {
+		return true
+	}
+	m := map[string]*big.Int{}
+	for i := 0; i < len(vars); i += 200 {
+		j := i + 200
+		if j > len(vars) {
+			j = len(vars)
+		}
+		var names []string
+		for _, v := range vars[i:j] {
+			names = append(names, ref(v))
+		}
+		s.cv.send("(get-value (" + strings.Join(names, " ") + "))")
+		txt := s.cv.readSexp()
+		if strings.Contains(txt, "(error") {
+			s.Errors = append(s.Errors, "cvc5-int get-value: "+txt)
+			return false
+		}
+		parseValues(txt, m)
+	}
+	for _, t := range asserts {
+		v := Eval(s.C, t, m)
+		if v == nil || v.Sign() == 0 {
+			s.Errors = append(s.Errors, "cvc5-int: model does not satisfy the bit-vector query")
+			return false
+		}
+	}
+	return true
 }
 
 // CheckWith decides satisfiability of stack ∧ t without changing the stack.
@@ -446,6 +574,9 @@ func (s *Solver) Model(vars []*Term) (map[string]*big.Int, error) {
 		}
 		return res, nil
 	}
+	if s.last == nil {
+		return nil, fmt.Errorf("no model available")
+	}
 	for i := 0; i < len(vars); i += 200 {
 		j := i + 200
 		if j > len(vars) {
@@ -453,11 +584,11 @@ func (s *Solver) Model(vars []*Term) (map[string]*big.Int, error) {
 		}
 		var names []string
 		for _, v := range vars[i:j] {
-			s.em.define(s.C, v)
+			s.last.em.define(s.C, v)
 			names = append(names, ref(v))
 		}
-		s.send("(get-value (" + strings.Join(names, " ") + "))")
-		txt := s.readSexp()
+		s.last.send("(get-value (" + strings.Join(names, " ") + "))")
+		txt := s.last.readSexp()
 		if strings.Contains(txt, "(error") {
 			return nil, fmt.Errorf("get-value: %s", txt)
 		}
@@ -474,8 +605,22 @@ func (s *Solver) trace(kind, backend, res string, d time.Duration) {
 
 var traceOn = os.Getenv("GOSX_TRACE") != ""
 
+// fbSem bounds the number of concurrently racing portfolios (each starts up
+// to five solver processes).
+var fbSem = make(chan struct{}, fbSlots())
+
+func fbSlots() int {
+	n := runtime.NumCPU() / 3
+	if n < 2 {
+		n = 2
+	}
+	return n
+}
+
 func (s *Solver) fallback(asserts []*Term, vars []*Term) (Result, map[string]*big.Int) {
 	s.Stats.Fallbacks++
+	fbSem <- struct{}{}
+	defer func() { <-fbSem }()
 	t0 := time.Now()
 	defer func() { s.Stats.FallbackDur += time.Since(t0) }()
 	script := Script(s.C, asserts, nil)
@@ -545,7 +690,7 @@ func (s *Solver) fallback(asserts []*Term, vars []*Term) (Result, map[string]*bi
 	for range backends {
 		a := <-ch
 		if strings.Contains(a.txt, "(error") && a.first != "unsat" {
-			s.Errors = append(s.Errors, a.b.name+": "+firstErr(a.txt))
+			s.Warnings = append(s.Warnings, a.b.name+": "+firstErr(a.txt))
 			continue
 		}
 		switch a.first {
@@ -574,7 +719,7 @@ func (s *Solver) fallback(asserts []*Term, vars []*Term) (Result, map[string]*bi
 					}
 				}
 				if !good {
-					s.Errors = append(s.Errors, a.b.name+": model does not satisfy the bit-vector query")
+					s.Warnings = append(s.Warnings, a.b.name+": model does not satisfy the bit-vector query")
 					continue
 				}
 			}
